@@ -37,6 +37,7 @@ type C18Case struct {
 	Flags   uint16 `json:"flags,omitempty"`
 	Payload []byte `json:"payload,omitempty"`
 	Mcast   bool   `json:"mcast,omitempty"`
+	Tight   *int   `json:"tight,omitempty"` // send: repeat on a fresh client whose read buffer is the reply size plus this many bytes
 }
 
 func (c C18Case) Describe() string {
@@ -55,6 +56,10 @@ func genC18(t *rapid.T) C18Case {
 		c.Flags = syscall.NLM_F_REQUEST | rapid.OneOf(rapid.Just(uint16(0)), rapid.Just(uint16(syscall.NLM_F_ACK)), rapid.Uint16()).Draw(t, "flags")
 		n := rapid.OneOf(rapid.IntRange(0, 64), rapid.IntRange(0, 8970), rapid.SampledFrom([]int{0, 1, 2, 3, 4, 5, 7, 1023, 4096, 8969, 8970})).Draw(t, "len")
 		c.Payload = rapid.SliceOfN(rapid.Byte(), n, n).Draw(t, "payload")
+		if rapid.IntRange(0, 2).Draw(t, "tight") == 0 {
+			slack := rapid.SampledFrom([]int{0, 0, 0, 1, 2, 3, 4, 16}).Draw(t, "slack")
+			c.Tight = &slack
+		}
 	case "foreign":
 		n := rapid.OneOf(rapid.IntRange(1, 64), rapid.SampledFrom([]int{1, 15, 16, 17, 36, 64})).Draw(t, "len")
 		c.Payload = rapid.SliceOfN(rapid.Byte(), n, n).Draw(t, "bytes")
@@ -144,6 +149,11 @@ func setupSockets() {
 
 // checkEcho verifies a kernel NLMSG_ERROR datagram against the request.
 func checkEcho(d []byte, seq uint32, typ, flags uint16, payload []byte) error {
+	return checkEchoPort(d, seq, typ, flags, payload, routePort)
+}
+
+// checkEchoPort: wantPort 0 = the port id is only known from the kernel's own (outer) header.
+func checkEchoPort(d []byte, seq uint32, typ, flags uint16, payload []byte, wantPort uint32) error {
 	if len(d) < 36 {
 		return fmt.Errorf("kernel reply of %d bytes is too short for an error message with the echoed header", len(d))
 	}
@@ -154,8 +164,8 @@ func checkEcho(d []byte, seq uint32, typ, flags uint16, payload []byte) error {
 		return fmt.Errorf("kernel reply carries sequence %d, Send returned %d", s, seq)
 	}
 	port := ne.Uint32(d[12:])
-	if port != routePort {
-		return fmt.Errorf("kernel reply addressed to port %d, the socket's port id is %d", port, routePort)
+	if wantPort != 0 && port != wantPort {
+		return fmt.Errorf("kernel reply addressed to port %d, the socket's port id is %d", port, wantPort)
 	}
 	if e := int32(ne.Uint32(d[16:])); e != -int32(syscall.EOPNOTSUPP) {
 		return fmt.Errorf("kernel answered errno %d, want EOPNOTSUPP (the harness only sends types above RTM_MAX)", -e)
@@ -248,6 +258,36 @@ func propC18(c C18Case) error {
 			return fmt.Errorf("Send(type %d, flags %#x, %d bytes) returned sequence %d: %v", c.Type, c.Flags, len(c.Payload), seq, err)
 		}
 		hC18.Class("send-echoed")
+		if c.Tight != nil {
+			// the same request on a client whose read buffer holds the kernel's reply with *c.Tight bytes to spare
+			// (the reply size is the one just observed: it depends on the request length only)
+			size := len(msgs[0].Data) + *c.Tight
+			what := fmt.Sprintf("client with a %d-byte read buffer, kernel reply of %d bytes to Send(type %d, flags %#x, %d bytes)", size, len(msgs[0].Data), c.Type, c.Flags, len(c.Payload))
+			tc, err := libaudit.NewNetlinkClient(syscall.NETLINK_ROUTE, 0, make([]byte, size), nil)
+			if err != nil {
+				return fmt.Errorf("%s: NewNetlinkClient: %v", what, err)
+			}
+			defer tc.Close()
+			tseq, err := tc.Send(syscall.NetlinkMessage{Header: syscall.NlMsghdr{Type: c.Type, Flags: c.Flags}, Data: c.Payload})
+			if err != nil {
+				return fmt.Errorf("%s: Send: %v", what, err)
+			}
+			tm, err := tc.Receive(false, rawParser)
+			if err != nil {
+				return fmt.Errorf("%s: Receive refused a complete kernel datagram: %v", what, err)
+			}
+			if len(tm) != 1 || len(tm[0].Data) != len(msgs[0].Data) {
+				return fmt.Errorf("%s: Receive handed %d bytes to the parser", what, len(tm[0].Data))
+			}
+			if err := checkEchoPort(tm[0].Data, tseq, c.Type, c.Flags, c.Payload, 0); err != nil {
+				return fmt.Errorf("%s: %v", what, err)
+			}
+			if *c.Tight == 0 {
+				hC18.Class("send-reply-fills-read-buffer-exactly")
+			} else {
+				hC18.Class("send-reply-nearly-fills-read-buffer")
+			}
+		}
 		if len(c.Payload) > 0 && c.Flags&^(syscall.NLM_F_REQUEST|syscall.NLM_F_ACK) != 0 {
 			hC18.NonTrivial(hx.FP("send", c.Type, c.Flags, c.Payload), c.Describe)
 		}
